@@ -147,6 +147,20 @@ def monitor(lines, out):
             del cur[i]
             ring = CarbonRing([node_of(a) for a in cur])
             owners = {}
+        elif f[0] == "repoint":
+            o = out[oi]
+            oi += 1
+            i = int(f[1])
+            if i >= len(cur):
+                if o != "repoint err":
+                    return "re-pointing destination %d of %d was not rejected" % (i, len(cur))
+                continue
+            if o != "repoint ok":
+                return "re-pointing destination %d of %d failed" % (i, len(cur))
+            prev = None
+            cur[i] = f[2]
+            ring = CarbonRing([node_of(a) for a in cur])
+            owners = {}
         elif f[0] == "k":
             o = out[oi]
             oi += 1
@@ -192,6 +206,13 @@ def live_cases(rnd, n):
             else:
                 ops.append("del %d" % rnd.randint(0, 4))
             ops += ["k " + tg.hx(x) for x in ks]
+        if rnd.random() < 0.7:
+            # modDest addr=: point an existing destination at another host / instance; the keys follow the new (host, instance)
+            a = "%s:0:%s" % (rnd.choice(["127.0.0.1", "localhost"]), rnd.choice(["r1", "r2", "r3", "zz"]))
+            if node_of(a) not in used:
+                used.add(node_of(a))
+                ops.append("repoint %d %s" % (rnd.randint(0, 1), a))
+                ops += ["k " + tg.hx(x) for x in ks]
         out.append(("l%d" % i, ops))
     return out
 
